@@ -23,6 +23,7 @@ type Obligation struct {
 	PC     []Term
 	Trace  []string
 	Expect string // "unsat" (proof obligation) or "sat" (reachability)
+	Timeout int   // per-obligation solver timeout override (s); 0 = tier default
 	Result SolverResult
 	Query  string
 }
@@ -140,6 +141,9 @@ func NewExec(w *World) *Exec {
 		// the effect log: built-in ghost variables log / loglen
 		x.ghostVars["log"] = &GhostVar{Name: "log", Sort: ArraySort("Int", "Event")}
 		x.ghostVars["loglen"] = &GhostVar{Name: "loglen", Sort: "Int"}
+		// the log length is never negative
+		d.Const("G$loglen@0", "Int")
+		d.Axiom("loglen.nonneg", "(>= G$loglen@0 0)")
 	}
 	for _, name := range sortedKeys(x.ghostVars) {
 		x.heapSorts["G$"+name] = x.ghostVars[name].Sort
@@ -227,6 +231,12 @@ func (x *Exec) oblige(st *State, kind, label, anchor string, goal Term, pos toke
 	ob := &Obligation{Name: name, Func: x.fnName, Kind: kind, Label: label, Anchor: anchor,
 		Pos: x.pos(pos), Goal: goal, PC: append([]Term(nil), st.pc...), Trace: append([]string(nil), st.trace...), Expect: "unsat"}
 	x.obls = append(x.obls, ob)
+	// carved clauses (label with @case) isolate recorded defects: they are
+	// checked but never assumed, so a failing one cannot make later
+	// obligations on the same path vacuous
+	if strings.Contains(label, "@") && strings.HasPrefix(label, "C") {
+		return
+	}
 	st.assume(goal)
 }
 
